@@ -11,7 +11,7 @@ LEVEL = 'fault_enumeration'
 RULE = ('case = (stream bytes incl. sentinel tail, Content-Length below/equal/above the bytes available, buffer = '
         'max_memfile_size, read-fragmentation pattern = caps for successive read() calls, entry point '
         '_body_read | Request.body through WSGI read twice, content type none / octet-stream / JSON / urlencoded / multipart with a well-formed body whose closing delimiter '
-        'is followed by an epilogue, max_body_size unset, >= Content-Length incl. equal, or below it (413 expected, the read audit still applies); wsgi.input = fragmenting stream, a real seekable stream that stands behind the bytes of an earlier request, or an unbuffered io.RawIOBase stream (readinto with short reads) that holds more than the declared length; between the two reads of request.body the handler may re-assign CONTENT_TYPE / a re-spelled CONTENT_LENGTH / a header / the query string through request[...]; declared lengths up to 2^31 with an early end of stream; the wsgi.input_terminated flag set or not; Content-Length spelled with leading zeros). Plus two bodies read concurrently on two threads (readinto and read streams), every single-preemption schedule. Hypothesis-generated plus exhaustive enumeration of all '
+        'is followed by an epilogue, max_body_size unset, >= Content-Length incl. equal, or below it (413 expected, the read audit still applies); wsgi.input = fragmenting stream, a real seekable stream that stands behind the bytes of an earlier request, or an unbuffered io.RawIOBase stream (readinto with short reads) that holds more than the declared length; between the two reads of request.body the handler may re-assign CONTENT_TYPE / a re-spelled CONTENT_LENGTH / a header / the query string through request[...]; declared lengths up to 2^31 with an early end of stream; the wsgi.input_terminated flag set or not; Content-Length spelled with leading zeros; any request method incl. HEAD and TRACE; an earlier body-less request on the same application whose handler closed or wrote into its empty body). Plus two bodies read concurrently on two threads (readinto and read streams), every single-preemption schedule. Hypothesis-generated plus exhaustive enumeration of all '
         'compositions (cap sequences) of every body length <= 9 for buffers 1..11. Oracle: body == first '
         'min(CL, available) stream bytes; no read(n) asks for more than CL minus bytes already delivered; no '
         'read(-1). Non-trivial = at least one short read happened, or CL != available, or the body spilled to a '
@@ -59,6 +59,10 @@ def _strategy():
             case['stream'] = stream_kind
         if case['via'] == 'wsgi' and huge is None and delta % 5 == 0:
             case['cl_zeros'] = 1 + delta % 4
+        if case['via'] == 'wsgi' and delta % 3 == 0:
+            case['method'] = ['PUT', 'PATCH', 'DELETE', 'GET', 'HEAD', 'OPTIONS', 'TRACE', 'REPORT', 'post'][delta % 9]
+        if case['via'] == 'wsgi' and delta % 7 == 0:
+            case['earlier'] = ['close', 'write', 'read'][delta % 3]
         if reassign and case['via'] == 'wsgi' and maxb is None:
             case['reassign'] = reassign
             case['first_read'] = first_read
@@ -97,7 +101,22 @@ def _read_wsgi(case, stream):
     app = ombott.Ombott(cfg)
     seen = {}
 
-    @app.route('/b', method='POST')
+    if case.get('earlier'):
+        # an earlier request without a body on the same application whose handler closes (or writes into) the empty body object it was given
+        @app.route('/e', method=['GET', 'POST'])
+        def e():
+            f = app.request.body
+            if case['earlier'] == 'close':
+                f.close()
+            elif case['earlier'] == 'write':
+                f.write(b'junk left by an earlier request')
+            else:
+                f.read()
+            return 'e'
+        for em, ecl in (('GET', None), ('POST', 0)):
+            call_app(app, make_environ(em, '/e', body=b'', content_length=ecl))
+
+    @app.route('/b', method=['POST', 'PUT', 'PATCH', 'DELETE', 'GET', 'HEAD', 'OPTIONS', 'TRACE', 'REPORT'])
     def h():
         rq = app.request
         f1 = rq.body
@@ -120,7 +139,8 @@ def _read_wsgi(case, stream):
     if case.get('input_terminated') is not None:
         extra['wsgi.input_terminated'] = case['input_terminated']       # a server flag; Content-Length still bounds the body
     # (Content-Length = 1*DIGIT: leading zeros spell the same number)
-    env = make_environ('POST', '/b', stream=stream, content_length='0' * (case.get('cl_zeros') or 0) + str(case['cl']), headers=({'Content-Type': case['ctype']} if case.get('ctype') else None), extra=extra)
+    # (any method may carry a body: whether it has one is said by Content-Length, not by the verb)
+    env = make_environ(case.get('method') or 'POST', '/b', stream=stream, content_length='0' * (case.get('cl_zeros') or 0) + str(case['cl']), headers=({'Content-Type': case['ctype']} if case.get('ctype') else None), extra=extra)
     r = call_app(app, env)
     if r.escaped is not None:
         raise CheckFailure(f'exception escaped: {fmt_exc(r.escaped)}')
@@ -132,7 +152,7 @@ def _read_wsgi(case, stream):
         raise CheckFailure(f'status {r.status!r} for a plain Content-Length body; errors: {r.errors[-600:]}')
     if seen.get('b1') != seen.get('b2'):
         raise CheckFailure(f'second access to request.body differs: {seen.get("b1")!r} vs {seen.get("b2")!r}')
-    if r.body != seen.get('b1'):
+    if r.body != seen.get('b1') and (case.get('method') or 'POST') != 'HEAD':
         raise CheckFailure('echoed body differs from what the handler read')
     return seen['b1'], seen['spilled']
 
@@ -367,6 +387,13 @@ def run(ctx):
                     for pattern in ([], [1], [7]):
                         ctx.guarded(check_case, {'data': bytes(65 + i % 26 for i in range(n_)) + b'##', 'cl': n_, 'buf': buf, 'pattern': pattern, 'via': 'wsgi', 'ctype': None, 'cl_zeros': z})
         ctx.count('leading_zero_grid')
+        for method in ('POST', 'PUT', 'PATCH', 'DELETE', 'GET', 'HEAD', 'OPTIONS', 'TRACE', 'REPORT', 'head', 'trace'):
+            for n_ in (0, 1, 40, 300):
+                for buf in (8, 102400):
+                    for earlier in (None, 'close', 'write', 'read'):
+                        ctx.guarded(check_case, {'data': bytes(65 + i % 26 for i in range(n_)) + b'##', 'cl': n_, 'buf': buf, 'pattern': [7], 'via': 'wsgi', 'ctype': None, 'method': method,
+                                                 'earlier': earlier})
+        ctx.count('method_and_earlier_request_grid')
         for kind in ('rawio', 'frag'):
             for n_ in (5, 40, 2048):
                 ctx.guarded(check_threaded, {'threaded': True, 'stream': kind, 'n': n_, 'buf': 16 if n_ < 100 else 1024})
